@@ -17,6 +17,7 @@
 import Jawk.Lemmas.RoundTrip
 import Jawk.Lemmas.RunSpec
 import Jawk.Lemmas.ParseSer
+import Jawk.Props.Tables
 namespace Jawk.C01
 open Jawk RT
 
